@@ -35,8 +35,8 @@ pub fn command<S: Src, const P: u8>(s: &mut S) {
         _ => v == CommandCode::Unknown,
     };
     chk!(s, P, C19, named, "each command code point maps to the DSP0236 variant of that name");
-    cov!(s, b == 0x14 && n == 0x14, "cmd: last defined code point");
-    cov!(s, b == 0x15 && n == 0xFF, "cmd: first undefined code point");
+    cov!(s, P, C19, b == 0x14 && n == 0x14, "cmd: last defined code point");
+    cov!(s, P, C19, b == 0x15 && n == 0xFF, "cmd: first undefined code point");
 }
 
 pub fn msgtype<S: Src, const P: u8>(s: &mut S) {
@@ -54,8 +54,8 @@ pub fn msgtype<S: Src, const P: u8>(s: &mut S) {
     let n = v as u8;
     let defined = b == 0x00 || b == 0x05 || b == 0x06 || b == 0x7E || b == 0x7F;
     chk!(s, P, C19, n == if defined { b } else { 0xFF }, "MessageType::from(b) as u8 == b for defined b, else Invalid(0xFF)");
-    cov!(s, b == 0x7F && n == 0x7F, "type: IANA");
-    cov!(s, b == 0x80 && n == 0xFF, "type: undefined");
+    cov!(s, P, C19, b == 0x7F && n == 0x7F, "type: IANA");
+    cov!(s, P, C19, b == 0x80 && n == 0xFF, "type: undefined");
 }
 
 pub fn completion<S: Src, const P: u8>(s: &mut S) {
@@ -73,5 +73,5 @@ pub fn completion<S: Src, const P: u8>(s: &mut S) {
     chk!(s, P, C19, named, "completion codes 0-5 map to their DSP0236 variants");
     let n = v as u8;
     chk!(s, P, C19, n == b, "CompletionCode::from(b) as u8 == b for b<=5");
-    cov!(s, b == 5, "cc: 5");
+    cov!(s, P, C19, b == 5, "cc: 5");
 }
